@@ -669,11 +669,13 @@ class XsdElement(XsdComponent, ParticleMixin,
                 if xsd_type.is_blocked(self):
                     reason = _("usage of %r is blocked") % xsd_type
                     context.validation_error(validation, self, reason, obj)
-                elif xsd_type not in self.xsi_types:
+                else:
                     self.xsi_types.add(xsd_type)
 
                     # For complex contents augments permanently the XSD elements
-                    # that collect keys/keyrefs for enabled identities.
+                    # that collect keys/keyrefs for enabled identities. This is done
+                    # also for an already seen type, because other identities can be
+                    # enabled now (the update is idempotent).
                     if xsd_type.has_complex_content():
                         xpath_element = XPathElement(self.name, xsd_type)
                         for counter in context.identities.values():
